@@ -104,7 +104,7 @@ def preferred_model(ex, pref, viol, fallback, limit=400, budget_s=120):
 
 
 def decide(check, crate, oid, setup, post, replay=None, rb=None, unwind=8, enums=None, models=None, allow_panic=None,
-           max_cex=1, timeout_ms=30000, min_paths=1, note=None, known_predicates=None, budget_s=600, describe=None, merge=None, prefer=None, need_reach=None):
+           max_cex=1, timeout_ms=30000, min_paths=1, note=None, known_predicates=None, budget_s=600, describe=None, merge=None, prefer=None, need_reach=None, unwound_is_violation=False):
     """One obligation.
 
     setup(ex, st) -> (fname, args, inputs)         inputs: dict name -> z3 expr / python value (reported in counterexamples)
@@ -148,6 +148,17 @@ def decide(check, crate, oid, setup, post, replay=None, rb=None, unwind=8, enums
             detail["paths"] += 1
             if o.kind == "unwound":
                 detail["unwound"] += 1
+                if unwound_is_violation:
+                    # the caller derived the loop bound from a progress argument (every iteration consumes input): exceeding it is a
+                    # candidate non-termination witness, reported only if the native replay confirms it (hangs / deviates)
+                    if ex.check() == z3.sat:
+                        m = ex.solver.model()
+                        if prefer is not None:
+                            m = preferred_model(ex, prefer(inputs), None, m)
+                        cex.append(dict(label="loop bound exceeded: " + str(o.msg)[:120], inputs=cex_inputs(m)))
+                        if len(cex) >= max_cex:
+                            break
+                        continue
                 status = "inconclusive"
                 detail["unwound_at"] = o.msg
                 continue
